@@ -32,6 +32,7 @@ type Env struct {
 	atLatch  bool
 	oldNames map[string]Val
 	bound    map[string]Val
+	namesFirst bool // postconditions: parameters and results take precedence over locals
 }
 
 func (e *Env) with(name string, v Val) *Env {
@@ -62,6 +63,11 @@ func exprString(e ast.Expr) string {
 func (env *Env) lookup(name string) (Val, bool) {
 	if v, ok := env.bound[name]; ok {
 		return v, true
+	}
+	if env.namesFirst {
+		if v, ok := env.names[name]; ok {
+			return v, true
+		}
 	}
 	if v, ok := env.lookupLocal(name); ok {
 		return v, true
